@@ -21,6 +21,14 @@ def replay(payload):
     text = bytes.fromhex(payload["text_hex"])
     case = E.execute((), text=text, want_config=False)
     out = list(E.oracle_c07_walk(case))
+    if payload["signature"][1] == "removal-reused-parser":
+        ns = E.seams.load()
+        p = ns.parser.Parser()
+        E.seams.run_parse(bytes.fromhex(payload["prior_hex"]), parser=p, want_tree=False)
+        o3 = E.seams.run_parse(text, parser=p, want_tree=False)
+        if o3.verdict != "REJ" or o3.error != case.obs.error:
+            out.append(E.viol("C07", "removal-reused-parser", case, payload["signature"][2], payload["signature"][3], payload["signature"][4],
+                              payload["signature"][5], "reused parser: %s" % o3.brief()))
     if payload["signature"][1] == "removal":
         ext = payload["signature"][4]
         obs = case.obs
